@@ -55,6 +55,17 @@ def norm(node: ast.AST) -> str:
     return text
 
 
+def clear_norm_cache(tree: ast.AST) -> ast.AST:
+    """Drop cached normalised texts (needed after copying + rewriting a tree)."""
+    for n in ast.walk(tree):
+        if hasattr(n, "_pgv_norm"):
+            try:
+                del n._pgv_norm
+            except AttributeError:
+                pass
+    return tree
+
+
 class FuncInfo:
     def __init__(self, module: "Module", cls: Optional["ClassInfo"], node):
         self.module = module
